@@ -126,7 +126,12 @@ func (a *AgentRoles) Holders(suffix string) []*ssa.Function {
 		}
 		found := false
 		for _, h := range ir.WithClosures(f) {
-			if len(ir.CallsIn(h, func(c *ssa.CallCommon) bool { return strings.Contains(ir.CalleeName(c), suffix) })) > 0 {
+			if len(ir.CallsIn(h, func(c *ssa.CallCommon) bool {
+				if strings.HasSuffix(suffix, "$") {
+					return strings.HasSuffix(ir.CalleeName(c), strings.TrimSuffix(suffix, "$"))
+				}
+				return strings.Contains(ir.CalleeName(c), suffix)
+			})) > 0 {
 				found = true
 			}
 		}
